@@ -38,7 +38,7 @@ theorem impl_path_match_iff (req cpath : Bytes) :
     whose stored domain is RFC 6265 domain-matched both by the request host and by the host that set it, and whose
     stored path is RFC 6265 path-matched by the request path. -/
 theorem attached_only_if_spec_match (ip : IPNotion) (evs : List Event) (flt : Bool) (host : Bytes) (port : Nat)
-    (path n v : Bytes) (h : (n, v) ∈ attached (runJar [] evs) flt host port path) :
+    (path n : Bytes) (v : Val) (h : (n, v) ∈ attached (runJar [] evs) flt host port path) :
     flt = true ∧
     ∃ rhost rport cs c, Event.resp rhost rport cs ∈ evs ∧ c ∈ cs ∧ c.name = n ∧ c.value = v ∧ c.expired = false ∧
       rport = port ∧
@@ -81,7 +81,7 @@ theorem foreign_domain_not_stored (ip : IPNotion) (jar : Jar) (host : Bytes) (po
 
 /-- … hence after any history every cookie in the jar sits under a key whose domain is domain-matched by the
     host of the response that set it (and whose port is that response's port). -/
-theorem stored_only_from_matching_host (ip : IPNotion) (evs : List Event) (k : JKey) (d : Dict) (n v : Bytes)
+theorem stored_only_from_matching_host (ip : IPNotion) (evs : List Event) (k : JKey) (d : Dict) (n : Bytes) (v : Val)
     (hk : (k, d) ∈ runJar [] evs) (hn : (n, v) ∈ d) :
     ∃ rhost rport cs c, Event.resp rhost rport cs ∈ evs ∧ c ∈ cs ∧ c.name = n ∧ c.value = v ∧ c.expired = false ∧
       k = ckey c rhost rport ∧ domainMatch6265 ip.isIP rhost k.domain = true := by
@@ -150,7 +150,7 @@ theorem jar_keys_and_names_unique (evs : List Event) :
     the request (domain, port, path), the value of the LAST accepted Set-Cookie for that key and name — so a cookie
     that was expired (or overwritten) later in the history is never sent. -/
 theorem attached_is_latest_unexpired (evs : List Event) (flt : Bool) (host : Bytes) (port : Nat)
-    (path n v : Bytes) (h : (n, v) ∈ attached (runJar [] evs) flt host port path) :
+    (path n : Bytes) (v : Val) (h : (n, v) ∈ attached (runJar [] evs) flt host port path) :
     ∃ k : JKey, implDomainMatch host k.domain = true ∧ port = k.port ∧ implPathMatch path k.path = true ∧
       lastWrite evs k n = some v := by
   unfold attached at h
@@ -194,7 +194,7 @@ private def cx (x : String) : Bytes := x.toUTF8.toList
 theorem expired_removed_rfc_counterexample : ¬ ExpiredRemovedRFC stdIP := by
   intro h
   have := h [(⟨cx "example.com", 80, [slash]⟩, [(cx "sid", cx "1")])] (cx "sub.example.com") 80
-    { name := cx "sid", value := [], attrs := [(cx "Domain", some (cx "example.com"))], expired := true }
+    { name := cx "sid", value := some [], attrs := [(cx "Domain", some (cx "example.com"))], expired := true }
     rfl (by decide +kernel)
   revert this
   decide +kernel
@@ -204,7 +204,7 @@ theorem expired_removed_rfc_counterexample : ¬ ExpiredRemovedRFC stdIP := by
 /-- `attached_only_if_spec_match` for histories of raw Set-Cookies processed at arbitrary clock readings: the
     unexpired-ness of the cookie is the transcribed `cookies.is_expired` at the time of its response. -/
 theorem attached_only_if_spec_match_raw (ip : IPNotion) (evs : List RawEvent) (flt : Bool) (host : Bytes)
-    (port : Nat) (path n v : Bytes) (h : (n, v) ∈ attached (runRaw [] evs) flt host port path) :
+    (port : Nat) (path n : Bytes) (v : Val) (h : (n, v) ∈ attached (runRaw [] evs) flt host port path) :
     flt = true ∧
     ∃ now rhost rport cs c, RawEvent.resp now rhost rport cs ∈ evs ∧ c ∈ cs ∧ c.name = n ∧ c.value = v ∧
       isExpired now c.attrs c.dateTs = false ∧ rport = port ∧
@@ -230,7 +230,7 @@ theorem attached_only_if_spec_match_raw (ip : IPNotion) (evs : List RawEvent) (f
     attribute lookup, `is_expired` and the clock are all inside the model; only email.utils' verdict on an Expires
     value (`dateOf`) is a parameter, and the theorem holds for every such function. -/
 theorem attached_only_if_spec_match_hdr (ip : IPNotion) (dateOf : Bytes → Option Int) (evs : List HdrEvent)
-    (flt : Bool) (host : Bytes) (port : Nat) (path n v : Bytes)
+    (flt : Bool) (host : Bytes) (port : Nat) (path n : Bytes) (v : Val)
     (h : (n, v) ∈ attached (runHdr dateOf [] evs) flt host port path) :
     flt = true ∧
     ∃ now rhost rport hs hd c, HdrEvent.resp now rhost rport hs ∈ evs ∧ hd ∈ hs ∧ c ∈ cookiesOfHeader dateOf hd ∧
@@ -289,7 +289,7 @@ private def hist : List Event :=
     .resp (s "x.example.com.evil.org") 80 [ck "sid" "evil" [("Domain", ".example.com")] false] ]
 
 -- the hypotheses of `attached_only_if_spec_match` are satisfiable: a cookie is attached …
-example : attached (runJar [] hist) true (s "b.example.com") 80 (s "/foo/bar?x") = [(s "sid", s "1")] := by decide +kernel
+example : attached (runJar [] hist) true (s "b.example.com") 80 (s "/foo/bar?x") = [(s "sid", some (s "1"))] := by decide +kernel
 -- … and the model is not constant: other host / port / path / filter get nothing, the foreign Set-Cookie was dropped
 example : attached (runJar [] hist) true (s "x.example.com.evil.org") 80 (s "/foo") = [] := by decide +kernel
 example : attached (runJar [] hist) true (s "b.example.com") 81 (s "/foo") = [] := by decide +kernel
@@ -334,9 +334,14 @@ example : (cookiesOfHeader (fun _ => some 0) (C34.S "sid=; Expires=Thursday, 01-
     = [(s "sid", some (some (s "Thursday, 01-Jan-70 00:00:00 GMT")), true)] := by decide +kernel
 -- a header-text history: learn from the text, attach, expire by text
 example : attached (runHdr (fun _ => none) [] [.resp 1000 (s "a.example.com") 80 [C34.S "sid=1; Domain=.example.com; Path=/foo"]])
-    true (s "b.example.com") 80 (s "/foo/bar") = [(s "sid", s "1")] := by decide +kernel
+    true (s "b.example.com") 80 (s "/foo/bar") = [(s "sid", some (s "1"))] := by decide +kernel
 example : runHdr (fun _ => none) [] [.resp 1000 (s "a.example.com") 80 [C34.S "sid=1; Domain=.example.com; Path=/foo"],
     .resp 1001 (s "a.example.com") 80 [C34.S "sid=; Max-Age=0; Domain=.example.com; Path=/foo"]] = [] := by decide +kernel
+-- a cookie NAME without "=value" is stored with value `none` and sent back as the bare name; special values are quoted
+example : (cookiesOfHeader (fun _ => none) (C34.S "flag; Path=/x")).map (fun c => (c.name, c.value)) = [(s "flag", none)] := by
+  decide +kernel
+example : cookieHeaderText (attached (runHdr (fun _ => none) [] [.resp 0 (s "example.com") 80 [C34.S "flag", C34.S "sid=\"a b\""]])
+    true (s "example.com") 80 (s "/")) = C34.S "flag; sid=\"a b\"" := by decide +kernel
 -- the laws of `IPNotion` are satisfiable
 example : IPNotion := stdIPNotion
 
